@@ -42,6 +42,7 @@ sed -i "s#reval = { path = \"/repo\" }#reval = { path = \"$WT\" }#" "$MH/harness
 cp /verif/KNOWN_FINDINGS.txt "$MH/"; rsync -a /verif/regressions "$MH/"
 TGT="${SEEDCHECK_TARGET:-/tmp/mh/target}"
 export CARGO_TARGET_DIR="$TGT"
+(cd "$MH/harness" && cargo build -q --offline --bin rvv_deep >"$OUT/hbuilddev$N.log" 2>&1)
 if ! (cd "$MH/harness" && cargo build -q --release --offline --bins >"$OUT/hbuild$N.log" 2>&1); then
   if grep -Eq 'E0277|cannot be (sent|shared) between threads' "$OUT/hbuild$N.log"; then res "$R" harness_build "send-sync-compile-error"; else res "$R" harness_build "failed"; fi
 fi
